@@ -222,9 +222,41 @@ def write_evidence(prop, tier, seed, coverage, assumptions, wall, violations):
     json.dump(ev, open(os.path.join(EVID, prop + '.json'), 'w'), indent=1, default=str)
 
 
+_TIER = ['quick']
+
+
+def vlib_set_tier(t):
+    _TIER[0] = t
+
+
 def write_replay(prop, seed, tag, content):
     d = os.path.join(EVID, 'replays')
     os.makedirs(d, exist_ok=True)
+    content = dict(content)
+    content.setdefault('seed', int(seed))
+    content.setdefault('tier', _TIER[0])
+    content.setdefault('replay_cmd', 'bin/check %s --replay <this file>   (re-runs: VERIF_SEED=%s bin/check %s %s)' % (prop, seed, prop, _TIER[0]))
     path = os.path.join(d, '%s-%s-%s.json' % (prop, seed, tag))
     json.dump(content, open(path, 'w'), indent=1, default=str)
     return path
+
+
+# ---------------------------------------------------------------- coqchk (thorough tier)
+def run_coqchk():
+    """Independent re-check of the compiled development with coqchk, once per source hash."""
+    h = coq_hash()
+    cache = os.path.join(WORK, 'coqchk_%s.txt' % h)
+    os.makedirs(WORK, exist_ok=True)
+    if os.path.exists(cache):
+        txt = open(cache).read()
+        return txt.startswith('OK'), txt
+    mods = []
+    for f in sorted(os.listdir(os.path.join(COQ, 'theories', 'Properties'))):
+        if f.endswith('.v'):
+            mods.append('Clover.' + f[:-2])
+    p = run(['timeout', '5400', 'coqchk', '-silent', '-o'] + QFLAGS + mods, cwd=COQ)
+    out = (p.stdout + p.stderr)
+    ok = p.returncode == 0
+    txt = ('OK\n' if ok else 'FAILED\n') + out[-6000:]
+    open(cache, 'w').write(txt)
+    return ok, txt
